@@ -46,16 +46,18 @@ type Endpoint struct {
 	C    *netsim.MemConn
 	Name string
 
-	mu     sync.Mutex
-	got    []byte
-	keep   bool
-	n      int
-	bad    int // first offset at which received content deviates from Expect (-1 none)
-	expect func(off int) byte
-	eof    bool
-	rerr   string
-	writes []*WriteResult
-	closed bool
+	mu      sync.Mutex
+	got     []byte
+	keep    bool
+	n       int
+	bad     int // first offset at which received content deviates from Expect (-1 none)
+	expect  func(off int) byte
+	eof     bool
+	rerr    string
+	writes  []*WriteResult
+	closed  bool
+	queue   []queued
+	writing bool
 }
 
 // NewEndpoint starts consuming c. expect (optional) is the content expected at each
@@ -98,23 +100,54 @@ func (e *Endpoint) readLoop() {
 	}
 }
 
-// StartWrite writes b in a new goroutine; the result is visible in Obs once it returned.
+// StartWrite queues b for the endpoint's single writer goroutine (an application writes
+// sequentially on its socket); the result is visible in Obs once the Write returned.
 func (e *Endpoint) StartWrite(b []byte) int {
 	e.mu.Lock()
 	wr := &WriteResult{Len: len(b)}
 	e.writes = append(e.writes, wr)
 	idx := len(e.writes) - 1
+	e.queue = append(e.queue, queued{b, wr})
+	if !e.writing {
+		e.writing = true
+		go e.writeLoop()
+	}
 	e.mu.Unlock()
-	go func() {
-		n, err := e.C.Write(b)
+	return idx
+}
+
+type queued struct {
+	b  []byte
+	wr *WriteResult
+}
+
+func (e *Endpoint) writeLoop() {
+	for {
 		e.mu.Lock()
-		wr.Done, wr.N = true, n
+		if len(e.queue) == 0 {
+			e.writing = false
+			e.mu.Unlock()
+			return
+		}
+		q := e.queue[0]
+		e.queue = e.queue[1:]
+		e.mu.Unlock()
+		n, err := e.C.Write(q.b)
+		e.mu.Lock()
+		q.wr.Done, q.wr.N = true, n
 		if err != nil {
-			wr.Err = err.Error()
+			q.wr.Err = err.Error()
 		}
 		e.mu.Unlock()
-	}()
-	return idx
+	}
+}
+
+// StartWrites queues several writes (an application that writes its payload in pieces
+// without waiting for delivery).
+func (e *Endpoint) StartWrites(bs [][]byte) {
+	for _, b := range bs {
+		e.StartWrite(b)
+	}
 }
 
 func (e *Endpoint) Pause()  { e.C.StallIncoming(true) }
@@ -129,17 +162,17 @@ func (e *Endpoint) Close() {
 
 // Obs is the canonical observation of an endpoint at a quiescent point.
 type Obs struct {
-	Name        string
-	Got         int
-	Hash        uint64
-	BadAt       int
-	EOF         bool
-	Err         string
-	Closed      bool
-	Writes      []WriteResult
-	PeerClosed  bool
-	PendingIn   int
-	WrittenOut  int64
+	Name       string
+	Got        int
+	Hash       uint64
+	BadAt      int
+	EOF        bool
+	Err        string
+	Closed     bool
+	Writes     []WriteResult
+	PeerClosed bool
+	PendingIn  int
+	WrittenOut int64
 }
 
 func (e *Endpoint) Obs() Obs {
